@@ -228,7 +228,10 @@ def run(ch, idx, tier):
                 elif op == "add_pop":
                     src = list(data.pops.keys())[ch.choose("add_pop.src", len(data.pops))]
                     new_names += 1
-                    code = ["np %d" % new_names, "New-pop_%d" % new_names, "zz%d" % new_names][ch.choose("add_pop.name", 3)]
+                    # valid names that look like something else to a spreadsheet reader are part of "arbitrary names"
+                    code = ["np %d" % new_names, "New-pop_%d" % new_names, "zz%d" % new_names, "NA", "15", "null", "1e5", "N/A", "True"][ch.choose("add_pop.name", 9)]
+                    if code in data.pops:
+                        code = code + str(new_names)
                     ptype = data.pops[src]["type"]
                     data.add_pop(code, f"Population {code}", ptype)
                     for tdve in data.tdve.values():
@@ -252,9 +255,12 @@ def run(ch, idx, tier):
                 elif op == "rename_pop":
                     if progset is not None:
                         continue  # ProgramSet has no rename operation
-                    victim = list(data.pops.keys())[ch.choose("rename_pop.which", len(data.pops))]
+                    cands_ = sorted({k0 for tdc in data.transfers + data.interpops for (k0, _k1) in tdc.ts.keys()}) or list(data.pops.keys())  # prefer populations that key a transfer / interaction row
+                    victim = cands_[ch.choose("rename_pop.which", len(cands_))]
                     new_names += 1
-                    code = f"ren {new_names}"
+                    code = [f"ren {new_names}", "NA", "nan", "007"][ch.choose("rename_pop.name", 4)]
+                    if code in data.pops:
+                        code = code + str(new_names)
                     data.rename_pop(victim, code, f"Renamed {new_names}")
                     parset = at.ParameterSet(fw, data, parset.name)
                     op = f"rename_pop({victim!r}->{code!r})"
